@@ -27,6 +27,7 @@ type Val struct {
 	Deser    *sx.T
 	Iter     *IterVal // storage iterator; T is the number of items consumed
 	Pair     *[2]Val  // key/value item of an iterator awaiting its struct type
+	Fn       *ast.FuncLit // a function literal bound to a local variable: calls of the variable run its body in place
 }
 
 // IterVal is the ghost snapshot behind a storage.Find iterator.
@@ -82,6 +83,7 @@ type State struct {
 	xcalls spec.LogVal
 	xm     map[string]spec.LogVal // external calls per callee method
 	xgen   int                    // generation of the per-method bases not yet materialised
+	xgenOf map[string]int         // per-method generations set by a framed havoc (a callee that can append to these logs only)
 	pc     []*sx.T                // branch conditions
 	facts  []*sx.T                // assumed facts (callee postconditions, no-fault conditions)
 	defs   []*sx.T                // definitions of named terms
@@ -96,6 +98,12 @@ func (s *State) clone() *State {
 	n.notifs = spec.LogVal{Base: s.notifs.Base, Items: append([]spec.Event{}, s.notifs.Items...)}
 	n.xcalls = spec.LogVal{Base: s.xcalls.Base, Items: append([]spec.Event{}, s.xcalls.Items...)}
 	n.xgen = s.xgen
+	if len(s.xgenOf) > 0 {
+		n.xgenOf = make(map[string]int, len(s.xgenOf))
+		for k, v := range s.xgenOf {
+			n.xgenOf[k] = v
+		}
+	}
 	n.xm = make(map[string]spec.LogVal, len(s.xm))
 	for k, v := range s.xm {
 		n.xm[k] = spec.LogVal{Base: v.Base, Items: append([]spec.Event{}, v.Items...)}
@@ -114,7 +122,11 @@ func (e *Engine) xlog(st *State, method string) spec.LogVal {
 	if st.xm == nil {
 		st.xm = map[string]spec.LogVal{}
 	}
-	base := fmt.Sprintf("xm_%s_g%d", strings.NewReplacer(".", "_", "-", "_").Replace(method), st.xgen)
+	gen := st.xgen
+	if g, ok := st.xgenOf[method]; ok && g > gen {
+		gen = g
+	}
+	base := fmt.Sprintf("xm_%s_g%d", strings.NewReplacer(".", "_", "-", "_").Replace(method), gen)
 	e.extraFn["xm:"+base] = fmt.Sprintf("(declare-const %s Int)\n(declare-fun at_%s (Int) GhostEv)", base, base)
 	l := spec.LogVal{Base: base}
 	st.xm[method] = l
@@ -138,6 +150,18 @@ func xmKey(st *State) string {
 	fmt.Fprintf(&b, "g%d", st.xgen)
 	for _, k := range keys {
 		b.WriteString("#" + k + ":" + logKey(st.xm[k]))
+	}
+	if len(st.xgenOf) > 0 {
+		gk := make([]string, 0, len(st.xgenOf))
+		for k := range st.xgenOf {
+			gk = append(gk, k)
+		}
+		sort.Strings(gk)
+		for _, k := range gk {
+			if _, mat := st.xm[k]; !mat && st.xgenOf[k] > st.xgen {
+				fmt.Fprintf(&b, "#%s@g%d", k, st.xgenOf[k])
+			}
+		}
 	}
 	return b.String()
 }
@@ -169,6 +193,7 @@ type writeRec struct {
 }
 
 type Engine struct {
+	curOverride map[string]spec.TV // values of cur(p) for the pointer parameters of the contract being applied (set by call)
 	evTypes    map[string]map[string][]string // package path -> event name -> declared parameter types
 	writeLog   *[]writeRec                    // non-nil during a dry run
 	dry        int
@@ -424,7 +449,7 @@ func (e *Engine) Prelude(sp *spec.File) (decls []string, quants []smt.Quant) {
 	)
 	quants = append(quants, smt.Quant{Name: "b2i-i2b", Vars: []smt.Var{{Name: "x", Sort: "Int"}},
 		Body: sx.MustParse1("(= (b2i (i2b x)) x)"), Pats: [][]*sx.T{{sx.MustParse1("(i2b x)")}}})
-	decls = append(decls, "(declare-sort Any 0)", "(declare-const AnyNull Any)", "(declare-sort MapV 0)", "(declare-const MapEmpty MapV)", "(declare-sort GhostEv 0)",
+	decls = append(decls, "(declare-sort Any 0)", "(declare-const AnyNull Any)", "(declare-sort MapV 0)", "(declare-const MapEmpty MapV)", "(declare-fun map_len (MapV) Int)", "(declare-sort GhostEv 0)",
 		"(declare-const notifs0 Int)", "(declare-const xcalls0 Int)", "(declare-fun at_notifs0 (Int) GhostEv)", "(declare-fun at_xcalls0 (Int) GhostEv)")
 	for _, name := range e.order {
 		if strings.HasPrefix(name, "list:") {
@@ -974,12 +999,34 @@ func (e *Engine) eval(fr *frame, st *State, x ast.Expr, k cont) {
 						}
 					}
 				}
+				if b, ok := sel.Type().Underlying().(*types.Basic); ok && e.Go64 && ft.K == spec.KInt && !isNumeral(t) {
+					// a field of a fixed-width integer type holds a value of that type (type invariant of Go values)
+					if lo, hi, ok := intRange(b.Kind()); ok {
+						st.facts = append(st.facts, sx.App("<=", sx.IntS(lo), t), sx.App("<=", t, sx.IntS(hi)))
+					}
+				}
 				k(st, Val{TV: spec.TV{T: t, Ty: ft}})
 			})
 			return
 		}
 		if v, ok := e.lookup(fr, st, info.Uses[x.Sel]); ok {
 			k(st, v)
+			return
+		}
+		if gv, ok := info.Uses[x.Sel].(*types.Var); ok && e.Go64 && gv.Pkg() != nil && gv.Parent() == gv.Pkg().Scope() && e.Pkgs[gv.Pkg().Path()] == nil {
+			// a package-level variable of a library (base64.StdEncoding, neorpc.ErrInsufficientFunds): an opaque constant
+			ty := spec.Type{K: spec.KAny}
+			func() {
+				defer func() { recover() }()
+				ty = e.typeOf(gv.Type())
+			}()
+			if ty.K == spec.KUnit {
+				k(st, unit())
+				return
+			}
+			c := sx.Atom("lib_" + gv.Pkg().Name() + "_" + gv.Name())
+			e.extraFn["lib:"+c.A] = fmt.Sprintf("(declare-const %s %s)", c.A, ty.Sort())
+			k(st, Val{TV: spec.TV{T: c, Ty: ty}})
 			return
 		}
 		panic("unsupported selector " + x.Sel.Name)
@@ -1166,7 +1213,9 @@ func (e *Engine) eval(fr *frame, st *State, x ast.Expr, k cont) {
 	case *ast.StarExpr:
 		e.eval(fr, st, x.X, k)
 	case *ast.FuncLit:
-		k(st, unit())
+		u := unit()
+		u.Fn = x
+		k(st, u)
 	case *ast.TypeAssertExpr:
 		e.eval(fr, st, x.X, func(st *State, v Val) {
 			r := e.convert(v, e.typeOf(info.Types[x.Type].Type))
@@ -1439,4 +1488,28 @@ func (e *Engine) mergeBranches(fr *frame, entry *State, body func(kk cont), k co
 		m.pc = append(m.pc, sx.Or(conds...))
 	}
 	k(m, rv)
+}
+
+
+// intRange is the value range of a fixed-width integer kind (64-bit platform for int and uint).
+func intRange(k types.BasicKind) (lo, hi string, ok bool) {
+	switch k {
+	case types.Uint8:
+		return "0", "255", true
+	case types.Uint16:
+		return "0", "65535", true
+	case types.Uint32:
+		return "0", "4294967295", true
+	case types.Uint64, types.Uint, types.Uintptr:
+		return "0", "18446744073709551615", true
+	case types.Int8:
+		return "-128", "127", true
+	case types.Int16:
+		return "-32768", "32767", true
+	case types.Int32:
+		return "-2147483648", "2147483647", true
+	case types.Int64, types.Int:
+		return "-9223372036854775808", "9223372036854775807", true
+	}
+	return "", "", false
 }
